@@ -33,11 +33,11 @@ type histCfg struct {
 
 type hLoc struct {
 	*Location
-	source string // cdp | url | file
-	file   string
-	cdp    []string // the distribution-point set every certificate of this location carries (one identifier per location)
-	cdpKind string
-	neverGood bool // the origin of this location never serves a CRL
+	source    string // cdp | url | file
+	file      string
+	cdp       []string // the distribution-point set every certificate of this location carries (one identifier per location)
+	cdpKind   string
+	neverGood bool             // the origin of this location never serves a CRL
 	published map[int][]string // forms in which each version was ever published
 }
 
@@ -66,18 +66,18 @@ func (o locObs) String() string {
 
 type histRun struct {
 	digitNames bool // issuer names A/B end in "2"/"24"
-	h      *Harness
-	w      *World
-	cfg    histCfg
-	locs   []*hLoc
-	nodes  []*hNode
-	ncfg   []NodeCfg
-	events []string
-	ocsp   map[string]string // responder URL -> state
-	sig    string
-	strict []bool
-	own    func(oracle string) bool
-	resp   map[*CA]*Responder
+	h          *Harness
+	w          *World
+	cfg        histCfg
+	locs       []*hLoc
+	nodes      []*hNode
+	ncfg       []NodeCfg
+	events     []string
+	ocsp       map[string]string // responder URL -> state
+	sig        string
+	strict     []bool
+	own        func(oracle string) bool
+	resp       map[*CA]*Responder
 }
 
 func (r *histRun) observe(n *hNode) observation {
